@@ -128,6 +128,14 @@ func gen(tier string) []proto.Item {
 			s.SynAck = &simnet.SynAckSpec{Enabled: false}
 			items = append(items, proto.Item{Scn: s, Class: v + "/handshake/never-captured", Note: map[string]string{"extra": "0", "handshake_only": "1"}})
 		}
+		// not the first run of its process: the packet-identifier allocator stands just below the 16-bit wrap (where it has
+		// to skip a range): the run still starts, and ends within its bound on a silent network
+		if vi.Kind == "tcp" {
+			for _, base := range []uint32{65535, 65530, 65536 - 30} {
+				s := proto.Scn{Variant: v, First: 1, Last: 4, Dest: 0, IPIDBase: base, EchoBase: 80, TimeoutMs: 300, DelayMs: 10, SilentElsewhere: true, MaxSteps: 20000, Hops: map[int]proto.HopSpec{1: {Silent: true}, 2: {Silent: true}, 3: {Silent: true}, 4: {Silent: true}}}
+				items = append(items, proto.Item{Scn: s, Class: fmt.Sprintf("%s/r1-4/t300-d10/silence/packet-ids-at-%d", v, base), Note: map[string]string{"extra": "0"}})
+			}
+		}
 		// cancellation of the caller's context (the variants that take one) on a grid of instants
 		// (udp and tcp-syn entry points take no context; there the caller's context stands in for the context.Background()
 		// their engine is started on, so that the engine run over the real driver is cancelled: proto.RunScns)
